@@ -97,6 +97,7 @@ type Job struct {
 	Known        map[string]bool
 	KnownHits    map[string]int64
 	NativeRuns   int64
+	Digests      []string
 }
 
 type Worker struct {
@@ -159,6 +160,7 @@ type Run struct {
 	pools   map[lockKey][]Value
 	killed  bool
 	knownFaultKey string
+	digests       []string
 	preemptions int
 	exclude     *G
 	stubs    map[string]Value
@@ -798,6 +800,9 @@ func (j *Job) merge(r *Run) {
 	}
 	for k, v := range r.knownHits {
 		j.KnownHits[k] += v
+	}
+	if len(r.digests) > 0 {
+		j.Digests = r.digests
 	}
 	j.Obligations += r.obligations
 	j.Discharged += r.discharged
